@@ -44,7 +44,7 @@ def instances(model_text):
         if l.startswith("CASE "):
             f = l.split()
             cur = {"kind": f[2], "mustfail": f[3].endswith("=1"), "what": "", "result": "?", "cls": "", "wf": None,
-                   "reasons": [], "unmodelled": [], "words": 0, "cps": 0}
+                   "reasons": [], "unmodelled": [], "words": 0, "cps": 0, "cf": None}
             res.append(cur)
         elif cur is None:
             continue
@@ -66,6 +66,8 @@ def instances(model_text):
                     cur["unmodelled"] = v.split(",")
                 elif k in ("words", "cps"):
                     cur[k] = int(v)
+                elif k == "cf":
+                    cur["cf"] = v == "1"
     return res
 
 
@@ -180,12 +182,15 @@ def run(rep):
     emitted = 0
     for i in insts:
         fe = i["kind"].split(":")[0]
-        s = by_fe.setdefault(fe, {"instances": 0, "emitted": 0, "wf": 0, "ill_formed": 0, "unmodelled": 0, "rejected": 0, "rom_words": 0})
+        s = by_fe.setdefault(fe, {"instances": 0, "emitted": 0, "wf": 0, "ill_formed": 0, "unmodelled": 0, "rejected": 0, "rom_words": 0,
+                                  "jump_target_beyond_program": 0})
         s["instances"] += 1
         if i["result"] == "ok":
             emitted += 1
             s["emitted"] += 1
             s["rom_words"] += i["words"]
+            if i["cf"] is False:
+                s["jump_target_beyond_program"] += 1
             if i["wf"]:
                 s["wf"] += 1
             elif only_unmodelled(i):
